@@ -19,11 +19,14 @@ package main
 //	   faults and crashes, followed by one more call that runs alone without faults (the probe).
 import (
 	"context"
+	"crypto"
 	"crypto/ecdsa"
 	"crypto/elliptic"
 	crand "crypto/rand"
 	"crypto/x509"
+	"encoding/base64"
 	"encoding/json"
+	"encoding/pem"
 	"errors"
 	"fmt"
 	"math/rand"
@@ -58,6 +61,28 @@ type c20Action struct {
 	C int    `json:"c"`
 	F bool   `json:"f,omitempty"`
 	L bool   `json:"l,omitempty"` // step at a newAccount gate: the CA creates the account, the response is lost
+	P string `json:"p,omitempty"` // faulted step at a newOrder gate: which problem the CA answers (see c20OrderProblems; "": unauthorized/403)
+}
+
+// c20OrderProblems: what the CA may answer to newOrder (or, "fin-": accept the order and answer
+// this to finalize) while the account is perfectly alive. None of them says that the account is
+// gone, so none of them may make the client delete or replace its stored account.
+var c20OrderProblems = []string{"", "u401", "rl429", "mf400", "fin-u401", "fin-u403", "fin-rl429", "si500"}
+
+func c20Problem(p string) *mockca.Problem {
+	switch strings.TrimPrefix(p, "fin-") {
+	case "u401":
+		return mockca.Prob(401, "unauthorized", "injected CA error (401)")
+	case "u403":
+		return mockca.Prob(403, "unauthorized", "injected CA error (403)")
+	case "rl429":
+		return mockca.Prob(429, "rateLimited", "injected CA error: too many requests")
+	case "mf400":
+		return mockca.Prob(400, "malformed", "injected CA error: malformed")
+	case "si500":
+		return mockca.Prob(500, "serverInternal", "injected CA error: internal")
+	}
+	return mockca.Prob(403, "unauthorized", "injected CA error")
 }
 
 type c20HistIn struct {
@@ -66,6 +91,7 @@ type c20HistIn struct {
 	CAs    []int       `json:"cas"` // CA index of every thread (kphist: 1 = the issuer has an e-mail, 0 = none)
 	Script []c20Action `json:"script"`
 	KP     *c20KPIn    `json:"kp,omitempty"`
+	EAB    bool        `json:"eab,omitempty"` // the issuers are configured with an external account (for the production CA)
 }
 
 // c20KPIn: initial condition of a history in configured-account-key mode. File contents: 0 absent,
@@ -148,11 +174,53 @@ type c20Arrival struct {
 	res      [2]int // configured-key mode: (registration, key) of the account returned
 }
 
-type c20Reply struct{ fault, crash, lost bool }
+type c20Reply struct {
+	fault, crash, lost bool
+	prob               string
+}
 
 type c20Env struct {
-	cas []*mockca.CA
-	csr *x509.CertificateRequest
+	cas    []*mockca.CA
+	csr    *x509.CertificateRequest
+	eab    bool   // the next history configures its issuers with the external account below
+	eabKey []byte // MAC key of external account c20EABKid, known to both mock CAs (so that both can verify)
+}
+
+const c20EABKid = "c20-external-account"
+
+// c20EABRec: one request that carried an externalAccountBinding, or that created an account.
+type c20EABRec struct {
+	CA       int    `json:"ca"`
+	Creating bool   `json:"creating"` // a newAccount request that is not a look-up
+	Has      bool   `json:"has_eab"`
+	URLCA    int    `json:"url_ca"` // the CA whose newAccount URL the binding names (9: none of them)
+	KidOK    bool   `json:"kid_ok"`
+	MacOK    bool   `json:"mac_ok"`
+	JWKOK    bool   `json:"jwk_ok"`
+	Kind     string `json:"kind"`
+}
+
+func (env *c20Env) eabRecords() []c20EABRec {
+	var out []c20EABRec
+	for c, ca := range env.cas {
+		for _, q := range ca.Requests() {
+			creating := q.Kind == "newAccount" && !q.OnlyReturnExisting
+			if q.EAB == nil && !creating {
+				continue
+			}
+			rec := c20EABRec{CA: c, Creating: creating, Has: q.EAB != nil, URLCA: 9, Kind: q.Kind}
+			if q.EAB != nil {
+				for c2, ca2 := range env.cas {
+					if q.EAB.URL == ca2.Base+"/new-acct" {
+						rec.URLCA = c2
+					}
+				}
+				rec.KidOK, rec.MacOK, rec.JWKOK = q.EAB.Kid == c20EABKid, q.EAB.MacOK, q.EAB.JWKOK
+			}
+			out = append(out, rec)
+		}
+	}
+	return out
 }
 
 var c20ErrInjected = errors.New("injected storage fault")
@@ -167,6 +235,11 @@ func c20NewEnv() *c20Env {
 	key, _ := ecdsa.GenerateKey(elliptic.P256(), crand.Reader)
 	der, _ := x509.CreateCertificateRequest(crand.Reader, &x509.CertificateRequest{DNSNames: []string{"c20.example.com"}}, key)
 	env.csr, _ = x509.ParseCertificateRequest(der)
+	env.eabKey = make([]byte, 32)
+	crand.Read(env.eabKey)
+	for _, ca := range env.cas {
+		ca.SetEABKey(c20EABKid, env.eabKey)
+	}
 	return env
 }
 
@@ -192,37 +265,98 @@ func (f *c20Final) probeRes(p int) [2]int {
 }
 
 type c20Thread struct {
-	c     int
-	state int // 0 not started, 1 running, 2 at gate, 3 finished
-	gate  c20Arrival
-	reply chan c20Reply
-	last  int // index of the event whose value is completed at the next arrival (-1 none)
-	res   [2]int
-	nops  int
+	c       int
+	state   int // 0 not started, 1 running, 2 at gate, 3 finished
+	gate    c20Arrival
+	reply   chan c20Reply
+	last    int    // index of the event whose value is completed at the next arrival (-1 none)
+	lastS   int    // index of the script entry of that event
+	ordered [2]int // (account, account of the signing key) of the thread's last accepted order, from the CA's log
+	res     [2]int
+	nops    int
 }
 
 // chooser picks the next action among the enabled ones.
 type c20Chooser func(enabled []c20Action, ths []*c20Thread, holder int) (c20Action, bool)
 
 type c20Run struct {
-	env    *c20Env
-	b      *doubles.MemBackend
-	email  string
-	ths    []*c20Thread
-	arrive chan c20Arrival
-	mu     sync.Mutex
-	dead   map[int]bool
-	cur    int
-	holder int            // a thread that holds a storage lock (-1: none), for the choosers
-	held   map[string]int // storage lock name -> thread that holds it (mutual exclusion is per name, as in a Locker)
-	events []c20Event
-	script []c20Action
-	keys   map[string][2]int // storage key -> (ca, 0 reg / 1 key)
-	lockNm string
-	kp     *c20KP
-	b0     [2]int // configured-key mode: the two files when the probe started
-	lost   map[[2]int]bool // (CA, request number): the response of this request is to be dropped
+	env      *c20Env
+	b        *doubles.MemBackend
+	email    string
+	ths      []*c20Thread
+	arrive   chan c20Arrival
+	mu       sync.Mutex
+	dead     map[int]bool
+	cur      int
+	holder   int            // a thread that holds a storage lock (-1: none), for the choosers
+	held     map[string]int // storage lock name -> thread that holds it (mutual exclusion is per name, as in a Locker)
+	events   []c20Event
+	script   []c20Action
+	keys     map[string][2]int // storage key -> (ca, 0 reg / 1 key)
+	lockNm   string
+	kp       *c20KP
+	b0       [2]int                  // configured-key mode: the two files when the probe started
+	lost     map[[2]int]bool         // (CA, request number): the response of this request is to be dropped
+	sticky   map[int]*mockca.Problem // thread -> the answer to every further newOrder of its current operation (acmez retries a 5xx)
+	finFlt   map[int]*mockca.Problem // thread -> the answer to its next finalize request
+	deadlock bool                    // the history ran into a state where every remaining thread waited for a held lock
+	keyChk   [2]string               // the first storage key / lock name that differs from the harness's own naming (recorded, not used)
 }
+
+// c20AcctKeys: the storage keys of the account files of (CA, contact), computed by the harness
+// itself from the layout the property names — acme/<ca>/users/<email>/<user>.json and .key, with
+// <ca> = host-port-path of the directory URL, "default" for a missing e-mail — and not asked of
+// certmagic's own key functions (which are only compared with it).
+func c20AcctKeys(caURL, email string) (reg, key string) {
+	issuer := caURL
+	if u, err := url.Parse(caURL); err == nil {
+		issuer = strings.ReplaceAll(u.Host, ":", "-")
+		if pth := strings.Trim(strings.ReplaceAll(u.Path, "/", "-"), "-"); pth != "" {
+			issuer += "-" + pth
+		}
+	}
+	email = strings.ToLower(email)
+	folder, user := email, email
+	if email == "" {
+		folder, user = "default", "default"
+	} else if at := strings.Index(email, "@"); at > 0 {
+		user = email[:at]
+	}
+	base := "acme/" + issuer + "/users/" + folder + "/" + user
+	return base + ".json", base + ".key"
+}
+
+// c20LockName: the name of the registration lock of a contact, by the harness's own reading.
+func c20LockName(email string) string {
+	if email == "" {
+		return "register_acme_account"
+	}
+	return "register_acme_account_" + email
+}
+
+// c20DecodeKey reads a stored private key with the standard library only (certmagic's own decoder
+// is not asked): a PEM block holding an EC, PKCS#8 or PKCS#1 key.
+func c20DecodeKey(b []byte) (crypto.Signer, error) {
+	blk, _ := pem.Decode(b)
+	if blk == nil {
+		return nil, errors.New("no PEM block")
+	}
+	if k, err := x509.ParseECPrivateKey(blk.Bytes); err == nil {
+		return k, nil
+	}
+	if k, err := x509.ParsePKCS8PrivateKey(blk.Bytes); err == nil {
+		if sg, ok := k.(crypto.Signer); ok {
+			return sg, nil
+		}
+	}
+	if k, err := x509.ParsePKCS1PrivateKey(blk.Bytes); err == nil {
+		return k, nil
+	}
+	return nil, errors.New("unknown private key encoding")
+}
+
+// the first disagreement between certmagic's storage key / lock names and the harness's own
+var c20NameBad string
 
 func c20AcctIdx(url string) int {
 	i := strings.LastIndex(url, "/acct/")
@@ -260,7 +394,7 @@ func (r *c20Run) fileVal(key string) int {
 		}
 		return c20AcctIdx(a.Location)
 	}
-	k, err := certmagic.PEMDecodePrivateKey(v)
+	k, err := c20DecodeKey(v)
 	if err != nil {
 		return 0
 	}
@@ -293,7 +427,17 @@ func (r *c20Run) storageHook(op *doubles.Op) error {
 	case "Load", "Store", "Delete":
 		kc, ok := r.keys[op.Key]
 		if !ok {
-			return fmt.Errorf("c20 harness: unexpected storage key %s %q", op.Kind, op.Key)
+			// not an account file of this history's CAs and contact by the harness's own naming:
+			// reported as an operation on a foreign account (CA 9), which no thread is entitled to touch
+			kc = [2]int{9, 0}
+			if strings.HasSuffix(op.Key, ".key") {
+				kc[1] = 1
+			}
+			r.mu.Lock()
+			if r.keyChk[0] == "" {
+				r.keyChk[0] = op.Key
+			}
+			r.mu.Unlock()
 		}
 		a.kc = kc[0]
 		switch {
@@ -317,6 +461,13 @@ func (r *c20Run) storageHook(op *doubles.Op) error {
 		a.kind = c20KList
 	case "Lock":
 		a.kind = c20KLock
+		if op.Key != r.lockNm {
+			r.mu.Lock()
+			if r.keyChk[1] == "" {
+				r.keyChk[1] = op.Key
+			}
+			r.mu.Unlock()
+		}
 	case "Unlock":
 		a.kind = c20KUnlock
 	default: // LockAcquired, anything else: not a gate
@@ -343,20 +494,45 @@ func (r *c20Run) caHook(c int) func(*mockca.Request) *mockca.Problem {
 			kind = c20KLookup
 		case q.Kind == "newOrder":
 			kind = c20KOrder
+		case q.Kind == "finalize":
+			r.mu.Lock()
+			p := r.finFlt[r.cur]
+			delete(r.finFlt, r.cur)
+			r.mu.Unlock()
+			return p
 		default:
 			return nil
 		}
 		r.mu.Lock()
 		t := r.cur
 		dead := r.dead[t]
+		st := r.sticky[t]
 		r.mu.Unlock()
 		if dead {
 			return mockca.Prob(403, "unauthorized", "instance crashed")
 		}
+		if kind == c20KOrder && st != nil {
+			return st // a retry of the request that was answered with a 5xx: same answer, no new gate
+		}
 		r.arrive <- c20Arrival{t: t, kind: kind, kc: c, reqSeq: q.Seq}
 		rep := <-r.ths[t].reply
-		if rep.crash || rep.fault {
-			return mockca.Prob(403, "unauthorized", "injected CA error")
+		if rep.crash {
+			return mockca.Prob(403, "unauthorized", "instance crashed")
+		}
+		if rep.fault {
+			pr := c20Problem(rep.prob)
+			if kind == c20KOrder && strings.HasPrefix(rep.prob, "fin-") {
+				r.mu.Lock()
+				r.finFlt[t] = pr // the order is accepted; its finalize request is refused
+				r.mu.Unlock()
+				return nil
+			}
+			if kind == c20KOrder && pr.Status >= 500 {
+				r.mu.Lock()
+				r.sticky[t] = pr
+				r.mu.Unlock()
+			}
+			return pr
 		}
 		if rep.lost {
 			r.mu.Lock()
@@ -413,6 +589,9 @@ func (r *c20Run) startThread(t int) {
 		TrustedRoots: r.env.cas[0].Roots(), Logger: zap.NewNop(), HTTPProxy: func(*http.Request) (*url.URL, error) { return nil, nil }})
 	cfg.Issuers = []certmagic.Issuer{iss}
 	certmagic.VerifAccountSetEmail(iss, r.email)
+	if r.env.eab {
+		iss.ExternalAccount = &acme.EAB{KeyID: c20EABKid, MACKey: base64.RawURLEncoding.EncodeToString(r.env.eabKey)}
+	}
 	attempts := 0
 	if th.c == 1 {
 		attempts = 1 // doIssue(useTestCA)
@@ -450,6 +629,17 @@ func (r *c20Run) await(t int) error {
 		th := r.ths[t]
 		if th.last >= 0 {
 			ev := &r.events[th.last]
+			if ev.Fault && ev.Kind == c20KOrder && strings.HasPrefix(r.script[th.lastS].P, "fin-") {
+				// the problem was to be injected at finalize, but the CA itself refused the order
+				// (the account is gone): no fault was injected after all
+				if q := r.env.cas[ev.KC].Requests()[th.gate.reqSeq]; q.Status != 201 {
+					ev.Fault = false
+					r.script[th.lastS].F, r.script[th.lastS].P = false, ""
+					r.mu.Lock()
+					delete(r.finFlt, t)
+					r.mu.Unlock()
+				}
+			}
 			if !ev.Fault {
 				switch ev.Kind {
 				case c20KStoreReg, c20KStoreKey:
@@ -471,6 +661,14 @@ func (r *c20Run) await(t int) error {
 					switch {
 					case q.Status == 201:
 						ev.V = 0
+						// the account this order was placed under, as the CA saw it: kid, and the
+						// account whose key signed the request (not what the client says it used)
+						th.ordered = [2]int{c20AcctIdx(q.Account), 0}
+						for _, a := range r.env.cas[ev.KC].Accounts() {
+							if a.Thumbprint == q.Thumbprint {
+								th.ordered[1] = a.ID
+							}
+						}
 					case strings.HasSuffix(q.Problem, "accountDoesNotExist"):
 						ev.V = 1
 					default:
@@ -485,8 +683,11 @@ func (r *c20Run) await(t int) error {
 			if a.err == nil && r.kp != nil {
 				th.res = a.res
 			} else if a.err == nil {
-				i := c20AcctIdx(a.acctURL)
-				th.res = [2]int{i, i}
+				// judged by what the CA saw; the client's own report (certificate metadata) is only compared
+				th.res = th.ordered
+				if i := c20AcctIdx(a.acctURL); i != th.ordered[0] && c20NameBad == "" {
+					c20NameBad = fmt.Sprintf("issued certificate reports account %d, the CA took the order under account %d", i, th.ordered[0])
+				}
 			} else if strings.HasPrefix(a.err.Error(), "PANIC") {
 				return a.err
 			}
@@ -506,7 +707,7 @@ func c20RunHist(env *c20Env, email string, cas []int, choose c20Chooser, maxStep
 	}
 	certmagic.VerifAccountResetDiscoveredEmail()
 	r := &c20Run{env: env, b: doubles.NewMemBackend(), email: email, arrive: make(chan c20Arrival), dead: map[int]bool{}, cur: -1, holder: -1,
-		keys: map[string][2]int{}, held: map[string]int{}, lost: map[[2]int]bool{}}
+		keys: map[string][2]int{}, held: map[string]int{}, lost: map[[2]int]bool{}, sticky: map[int]*mockca.Problem{}, finFlt: map[int]*mockca.Problem{}}
 	if kpIn != nil {
 		// configured-account-key mode: one key, its account at the production CA (or not), and
 		// the two account files in one of their nine initial conditions
@@ -522,7 +723,7 @@ func c20RunHist(env *c20Env, email string, cas []int, choose c20Chooser, maxStep
 				return nil, nil, fmt.Errorf("c20 harness: pre-registered account is %s, expected %s", a.URL, kp.loc)
 			}
 		}
-		_, kp.regKey, kp.keyKey = certmagic.VerifUserKeys(ca.URL, email)
+		kp.regKey, kp.keyKey = c20AcctKeys(ca.URL, email)
 		switch kpIn.Reg0 {
 		case 1:
 			js, _ := json.Marshal(acme.Account{Status: "valid", Contact: []string{"mailto:" + email}, Location: kp.loc})
@@ -542,9 +743,13 @@ func c20RunHist(env *c20Env, email string, cas []int, choose c20Chooser, maxStep
 		r.kp = kp
 	}
 	for c, ca := range env.cas {
-		_, reg, key := certmagic.VerifUserKeys(ca.URL, email)
+		reg, key := c20AcctKeys(ca.URL, email)
 		r.keys[reg] = [2]int{c, 0}
 		r.keys[key] = [2]int{c, 1}
+		// certmagic's own answers are only recorded
+		if _, creg, ckey := certmagic.VerifUserKeys(ca.URL, email); (creg != reg || ckey != key) && r.keyChk[0] == "" {
+			r.keyChk[0] = creg + " / " + ckey + " (certmagic) vs " + reg + " / " + key
+		}
 		ca.Hook = r.caHook(c)
 		c := c
 		ca.DropResponse = func(q *mockca.Request) bool {
@@ -557,7 +762,10 @@ func c20RunHist(env *c20Env, email string, cas []int, choose c20Chooser, maxStep
 	if email != "" {
 		contact.Contact = []string{"mailto:" + email}
 	}
-	r.lockNm = certmagic.VerifAccountRegLockKey(contact)
+	r.lockNm = c20LockName(email)
+	if nm := certmagic.VerifAccountRegLockKey(contact); nm != r.lockNm {
+		r.keyChk[1] = nm + " (certmagic) vs " + r.lockNm
+	}
 	r.b.Log.Hook = r.storageHook
 	for _, c := range cas {
 		r.ths = append(r.ths, &c20Thread{c: c, reply: make(chan c20Reply), last: -1})
@@ -611,7 +819,7 @@ func c20RunHist(env *c20Env, email string, cas []int, choose c20Chooser, maxStep
 			if _, busy := r.held[g.key]; g.kind == c20KLock && !a.F && busy {
 				return (fmt.Errorf("c20 harness: Lock step while the lock is held"))
 			}
-			if g.kind == c20KUnlock {
+			if g.kind == c20KUnlock && r.kp != nil {
 				a.F = false
 				r.script[len(r.script)-1].F = false
 			}
@@ -619,6 +827,14 @@ func c20RunHist(env *c20Env, email string, cas []int, choose c20Chooser, maxStep
 				a.L = false
 				r.script[len(r.script)-1].L = false
 			}
+			if a.P != "" && (g.kind != c20KOrder || !a.F) {
+				a.P = ""
+				r.script[len(r.script)-1].P = ""
+			}
+			r.mu.Lock()
+			delete(r.sticky, a.T)
+			delete(r.finFlt, a.T)
+			r.mu.Unlock()
 			ev := c20Event{Tag: 1, T: a.T, Fault: a.F, Kind: g.kind, KC: g.kc}
 			if a.L {
 				ev.Tag = 4
@@ -649,12 +865,13 @@ func c20RunHist(env *c20Env, email string, cas []int, choose c20Chooser, maxStep
 			}
 			r.events = append(r.events, ev)
 			th.last = len(r.events) - 1
+			th.lastS = len(r.script) - 1
 			th.state = 1
 			th.nops++
 			r.mu.Lock()
 			r.cur = a.T
 			r.mu.Unlock()
-			th.reply <- c20Reply{fault: a.F, lost: a.L}
+			th.reply <- c20Reply{fault: a.F, lost: a.L, prob: a.P}
 			if err := r.await(a.T); err != nil {
 				return (err)
 			}
@@ -718,7 +935,25 @@ func c20RunHist(env *c20Env, email string, cas []int, choose c20Chooser, maxStep
 			return abort(fmt.Errorf("c20 harness: history exceeds %d steps", maxSteps))
 		}
 		if len(enabled) == 0 {
-			return abort(fmt.Errorf("c20 harness: no thread enabled (deadlock), holder=%d", r.holder))
+			// every thread that is left waits for a lock that nobody is going to release (it was
+			// leaked): an observation, not a harness failure. The waiters give up one by one (as if
+			// their instances were stopped); the final observation then shows the lock still held
+			// although nothing is in flight (clause (f) of the monitor).
+			r.deadlock = true
+			gaveUp := false
+			for t, th := range r.ths {
+				if th.state == 2 {
+					if err := apply(c20Action{K: "crash", T: t}); err != nil {
+						return abort(err)
+					}
+					gaveUp = true
+					break
+				}
+			}
+			if !gaveUp {
+				return abort(fmt.Errorf("c20 harness: no thread enabled (deadlock), holder=%d", r.holder))
+			}
+			continue
 		}
 		a, ok := choose(enabled, r.ths, r.holder)
 		if !ok {
@@ -755,9 +990,16 @@ func c20RunHist(env *c20Env, email string, cas []int, choose c20Chooser, maxStep
 		}
 		r.script = r.script[:len(r.script)-len(r.events)+r.kp.split] // the probe's own steps are implied
 	}
+	if c20NameBad == "" {
+		if r.keyChk[0] != "" {
+			c20NameBad = "storage key: " + r.keyChk[0]
+		} else if r.keyChk[1] != "" {
+			c20NameBad = "lock name: " + r.keyChk[1]
+		}
+	}
 	fin := &c20Final{LockFree: len(r.b.HeldLocks()) == 0}
 	for c, ca := range env.cas {
-		_, reg, key := certmagic.VerifUserKeys(ca.URL, email)
+		reg, key := c20AcctKeys(ca.URL, email)
 		fin.CAs = append(fin.CAs, [3]int{len(ca.Accounts()), r.fileVal(reg), r.fileVal(key)})
 		_ = c
 	}
@@ -789,7 +1031,7 @@ func c20RunHist(env *c20Env, email string, cas []int, choose c20Chooser, maxStep
 	return r, fin, nil
 }
 
-func c20HistWire(evs []c20Event, fin *c20Final) string {
+func c20HistWire(evs []c20Event, fin *c20Final, eab bool, recs []c20EABRec) string {
 	e := &emit.Enc{}
 	e.Int(0).Len(len(evs))
 	for _, ev := range evs {
@@ -815,6 +1057,10 @@ func c20HistWire(evs []c20Event, fin *c20Final) string {
 		e.Int(x[0]).Int(x[1]).Int(x[2])
 	}
 	e.Bool(fin.LockFree)
+	e.Bool(eab).Len(len(recs))
+	for _, x := range recs {
+		e.Int(x.CA).Bool(x.Creating).Bool(x.Has).Int(x.URLCA).Bool(x.KidOK && x.MacOK && x.JWKOK)
+	}
 	return e.String()
 }
 
@@ -914,6 +1160,7 @@ type c20Shape struct {
 
 func c20Random(rr *rand.Rand, sh c20Shape) c20Chooser {
 	faults, crashes, resets := 0, 0, 0
+	unlockFault := false
 	return func(enabled []c20Action, ths []*c20Thread, holder int) (c20Action, bool) {
 		active := 0
 		allEarlierDone := true
@@ -976,9 +1223,19 @@ func c20Random(rr *rand.Rand, sh c20Shape) c20Chooser {
 		default:
 			a = cand[rr.Intn(len(cand))]
 		}
-		if a.K == "step" && faults < sh.maxFaults && rr.Float64() < sh.pFault && ths[a.T].gate.kind != c20KUnlock {
+		pf := sh.pFault
+		if a.K == "step" && ths[a.T].gate.kind == c20KOrder && pf > 0 {
+			pf = 3*pf + 0.1 // the CA's answers to newOrder / finalize are a fault point of their own
+		}
+		if a.K == "step" && faults < sh.maxFaults && rr.Float64() < pf && ths[a.T].gate.kind != c20KUnlock {
 			a.F = true
 			faults++
+			if ths[a.T].gate.kind == c20KOrder {
+				a.P = c20OrderProblems[rr.Intn(len(c20OrderProblems)-1)] // not the 5xx one (acmez retries it with pauses)
+			}
+		} else if a.K == "step" && ths[a.T].gate.kind == c20KUnlock && sh.maxFaults > 0 && !unlockFault && rr.Float64() < 0.04 {
+			a.F = true // the Unlock fails: logged and ignored by the code; the lock stays held
+			unlockFault = true
 		} else if a.K == "step" && ths[a.T].gate.kind == c20KNewAcct && faults < sh.maxFaults && rr.Float64() < 3*sh.pFault {
 			a.L = true // the CA registers, the response is lost
 			faults++
@@ -1133,12 +1390,23 @@ func runC20(tier string, seed int64, outdir string, replay string) error {
 	env := c20NewEnv()
 	defer env.close()
 	c20RefHosts, c20RefBad = 0, ""
+	c20NameBad = ""
 
+	histNo := 0
 	addHist := func(class string, email string, cas []int, choose c20Chooser, feats map[string]any) error {
 		if feats == nil {
 			feats = map[string]any{}
 		}
+		// every third history: the issuers have an external account (a replay says which)
+		histNo++
+		env.eab = histNo%3 == 0
+		if v, ok := feats["eab"].(bool); ok {
+			env.eab = v
+		}
 		r, fin, err := c20RunHist(env, email, cas, choose, 600, nil)
+		recs := env.eabRecords()
+		eabOn := env.eab
+		env.eab = false
 		if err != nil {
 			if r != nil && strings.HasPrefix(err.Error(), "PANIC") {
 				// a panic inside doIssue is an observation, not a harness failure: report the history so
@@ -1171,13 +1439,33 @@ func runC20(tier string, seed int64, outdir string, replay string) error {
 				nlock[e.T] = true
 			}
 		}
+		for _, a := range r.script {
+			if a.K == "step" && a.F && a.P != "" {
+				w.Hist("hist_order_problem=" + a.P)
+			}
+		}
 		desc := map[string]any{"kind": "hist", "class": class, "threads": len(cas), "email": email != "", "faults": nf, "crashes": nc, "resets": nr, "registrations": nreg, "lost_responses": nlost}
 		for k, v := range feats {
 			desc[k] = v
 		}
+		if r.deadlock {
+			desc["deadlock"] = true
+			w.Hist("hist_deadlock")
+		}
 		nontrivial := nreg > 0 && (len(nlock) >= 2 || nf+nc+nr+nlost > 0)
-		w.Add(emit.Case{Desc: desc, In: c20HistIn{Kind: "hist", Email: email, CAs: cas, Script: r.script},
-			Obs: map[string]any{"events": evs, "final": fin}, Wire: c20HistWire(r.events, fin), Nontrivial: nontrivial})
+		desc["eab"] = eabOn
+		toTest := 0
+		for _, x := range recs {
+			if x.Has && x.CA == 1 {
+				toTest++
+			}
+		}
+		if eabOn {
+			w.Hist("hist_eab=configured")
+			w.Hist(fmt.Sprintf("hist_eab_sent_to_test_ca=%v", toTest > 0))
+		}
+		w.Add(emit.Case{Desc: desc, In: c20HistIn{Kind: "hist", Email: email, CAs: cas, Script: r.script, EAB: eabOn},
+			Obs: map[string]any{"events": evs, "final": fin, "eab": recs}, Wire: c20HistWire(r.events, fin, eabOn, recs), Nontrivial: nontrivial})
 		w.Hist("kind=hist")
 		w.Hist("class=" + class)
 		w.Hist(fmt.Sprintf("threads=%d", len(cas)))
@@ -1427,7 +1715,7 @@ func runC20(tier string, seed int64, outdir string, replay string) error {
 		if caKnows {
 			loc = ca.AddAccount(key.Public(), []string{"mailto:" + email}).URL
 		}
-		_, regKey, keyKey := certmagic.VerifUserKeys(ca.URL, email)
+		regKey, keyKey := c20AcctKeys(ca.URL, email)
 		if keyPresent {
 			if keyMatches {
 				b.Put(keyKey, pemK)
@@ -1471,8 +1759,8 @@ func runC20(tier string, seed int64, outdir string, replay string) error {
 		e := &emit.Enc{}
 		e.Int(3).Bool(withEmail).Bool(km).Bool(regOK).Bool(caKnows).Bool(err == nil).Int(lookups).Bool(saved).Int(created)
 		w.Add(emit.Case{Desc: map[string]any{"kind": "keypem", "class": "account-key-pem", "with_email": withEmail, "key_matches": km, "key_present": keyPresent, "reg": regOK, "ca_knows": caKnows},
-			In:  map[string]any{"kind": "keypem", "with_email": withEmail, "key_matches": keyMatches, "key_present": keyPresent, "reg": regOK, "ca_knows": caKnows},
-			Obs: map[string]any{"ok": err == nil, "error": fmt.Sprint(err), "location": acct.Location, "lookups": lookups, "saved": saved, "created": created},
+			In:   map[string]any{"kind": "keypem", "with_email": withEmail, "key_matches": keyMatches, "key_present": keyPresent, "reg": regOK, "ca_knows": caKnows},
+			Obs:  map[string]any{"ok": err == nil, "error": fmt.Sprint(err), "location": acct.Location, "lookups": lookups, "saved": saved, "created": created},
 			Wire: e.String(), Nontrivial: true, Key: fmt.Sprint(withEmail, keyMatches, keyPresent, regOK, caKnows)})
 		w.Hist("kind=keypem")
 		ca.Wipe()
@@ -1511,7 +1799,7 @@ func runC20(tier string, seed int64, outdir string, replay string) error {
 				return err
 			}
 			cls, _ := rc.Desc["class"].(string)
-			return addHist(cls, in.Email, in.CAs, c20Scripted(in.Script), map[string]any{"replayed": true})
+			return addHist(cls, in.Email, in.CAs, c20Scripted(in.Script), map[string]any{"replayed": true, "eab": in.EAB})
 		case "kphist":
 			var in c20HistIn
 			if err := json.Unmarshal(rc.In, &in); err != nil || in.KP == nil {
@@ -1566,7 +1854,7 @@ func runC20(tier string, seed int64, outdir string, replay string) error {
 	for _, email := range []string{"a@example.com", ""} {
 		// f80e244: the test CA forgets its account; the production account must stay
 		if err := addHist("testca-account-missing", email, []int{0, 1, 1, 0},
-			c20Scripted(cat(one(St(0, 0)), rep(S(0), 9), one(St(1, 1)), rep(S(1), 9), one(Rs(1)), one(St(2, 1)), rep(S(2), 14), one(St(3, 0)))), nil); err != nil {
+			c20Scripted(cat(one(St(0, 0)), rep(S(0), 9), one(St(1, 1)), rep(S(1), 9), one(Rs(1)), one(St(2, 1)), rep(S(2), 17), one(St(3, 0)))), nil); err != nil {
 			return err
 		}
 		// 6e1a233: one instance, the CA was re-installed: exactly one new account, and it is used
@@ -1574,11 +1862,38 @@ func runC20(tier string, seed int64, outdir string, replay string) error {
 			c20Scripted(cat(one(St(0, 0)), rep(S(0), 9), one(Rs(0)), one(St(1, 0)))), map[string]any{"witness": "ca-reinstalled-single-instance"}); err != nil {
 			return err
 		}
-		// known: two issuances hold the account the CA forgot; the second deletes the account the first just recreated
+		// f0aaa6b: two issuances hold the account the CA forgot; the second used to delete the account the
+		// first had just recreated and to register a third; now it finds the new account under the lock
+		stale2 := cat(one(St(0, 0)), rep(S(0), 9), one(St(1, 0)), rep(S(1), 2), one(St(2, 0)), rep(S(2), 2), one(Rs(0)))
 		if err := addHist("concurrent-recreate", email, []int{0, 0, 0},
-			c20Scripted(cat(one(St(0, 0)), rep(S(0), 9), one(St(1, 0)), rep(S(1), 2), one(St(2, 0)), rep(S(2), 2), one(Rs(0)), rep(S(1), 12), rep(S(2), 3))),
-			map[string]any{"witness": "two-stale-holders"}); err != nil {
+			c20Scripted(cat(stale2, rep(S(1), 15), rep(S(2), 8))), map[string]any{"witness": "two-stale-holders"}); err != nil {
 			return err
+		}
+		for i, sc := range [][]c20Action{
+			cat(stale2, one(S(1)), one(S(2)), rep(S(1), 6), rep(S(2), 6)),                         // both refused; 1 deletes and unlocks; 2 finds nothing; then both queue to register
+			cat(stale2, one(S(1)), one(S(2)), rep(S(2), 6), rep(S(1), 4), rep(S(2), 8)),           // ... the other one deletes; 1 compares while 2 registers
+			cat(stale2, rep(S(1), 5), one(S(2)), one(c20Action{K: "crash", T: 1}), rep(S(2), 6)),  // 1 crashes between its two Deletes; 2 takes over the lock
+			cat(stale2, rep(S(1), 4), one(F(1)), one(S(1)), rep(S(2), 8)),                         // 1's Delete of the reg file fails; 2 deletes
+			cat(stale2, rep(S(1), 5), one(F(1)), one(S(1)), rep(S(2), 8)),                         // 1's Delete of the key file fails; 2 finds the reg file gone
+			cat(stale2, rep(S(1), 12), one(S(2)), one(c20Action{K: "crash", T: 1}), rep(S(2), 8)), // 1 crashes between the Stores of the new account
+			cat(stale2, rep(S(1), 2), one(F(1)), rep(S(2), 4), one(F(2))),                         // the compare-and-delete's own Loads fail
+			cat(stale2, rep(S(1), 15), rep(S(2), 2), one(F(2))),                                   // ... after the account was replaced: reg file
+			cat(stale2, rep(S(1), 15), rep(S(2), 3), one(F(2))),                                   // ... key file
+			cat(stale2, rep(S(1), 13), rep(S(2), 1), one(S(1)), rep(S(2), 4)),                     // 2 queues on the lock while 1 saves the new account
+			cat(stale2, rep(S(1), 6), one(F(1)), rep(S(1), 2), rep(S(2), 2)),                      // the Unlock of the compare-and-delete fails: nobody can register any more
+		} {
+			if err := addHist("concurrent-recreate", email, []int{0, 0, 0}, c20Scripted(sc), map[string]any{"shape": "directed", "variant": i}); err != nil {
+				return err
+			}
+		}
+		// the CA answers newOrder (or finalize) with a problem that does not say the account is gone,
+		// while the account is stored and alive: nothing may be deleted or registered
+		for _, pb := range c20OrderProblems {
+			if err := addHist("order-problem", email, []int{0, 0, 0},
+				c20Scripted(cat(one(St(0, 0)), rep(S(0), 9), one(St(1, 0)), rep(S(1), 2), one(c20Action{K: "step", T: 1, F: true, P: pb}), one(St(2, 0)))),
+				map[string]any{"problem": pb}); err != nil {
+				return err
+			}
 		}
 		// all threads find nothing, then queue on the lock
 		for n := 2; n <= 5; n++ {
@@ -1593,16 +1908,18 @@ func runC20(tier string, seed int64, outdir string, replay string) error {
 		}
 		// save faults at each operation of the save, with a waiter
 		for _, sc := range [][]c20Action{
-			cat(one(St(0, 0)), rep(S(0), 4), one(St(1, 0)), one(S(1)), one(F(0))),                         // Store reg fails
-			cat(one(St(0, 0)), rep(S(0), 5), one(St(1, 0)), one(S(1)), one(F(0))),                         // Store key fails, rollback ok
-			cat(one(St(0, 0)), rep(S(0), 5), one(St(1, 0)), one(S(1)), one(F(0)), one(F(0))),              // Store key fails, rollback fails: reg only
-			cat(one(St(0, 0)), rep(S(0), 3), one(F(0)), one(St(1, 0))),                                    // newAccount fails
-			cat(one(St(0, 0)), one(S(0)), one(F(0)), one(St(1, 0))),                                       // Lock fails
-			cat(one(St(0, 0)), rep(S(0), 2), one(F(0)), one(St(1, 0))),                                    // reload fails
-			cat(one(St(0, 0)), rep(S(0), 5), one(c20Action{K: "crash", T: 0}), one(St(1, 0))),             // crash between the two Stores
-			cat(one(St(0, 0)), rep(S(0), 4), one(c20Action{K: "crash", T: 0}), one(St(1, 0))),             // crash after newAccount
-			cat(one(St(0, 0)), rep(S(0), 5), one(St(1, 0)), one(S(1)), rep(S(0), 1), one(S(1)), one(S(1))), // reader between reg and key
-			cat(one(St(0, 0)), rep(S(0), 3), one(St(1, 0)), one(S(1)), one(c20Action{K: "step", T: 0, L: true})), // the response of newAccount is lost, with a waiter
+			cat(one(St(0, 0)), rep(S(0), 4), one(St(1, 0)), one(S(1)), one(F(0))),                                                                                        // Store reg fails
+			cat(one(St(0, 0)), rep(S(0), 5), one(St(1, 0)), one(S(1)), one(F(0))),                                                                                        // Store key fails, rollback ok
+			cat(one(St(0, 0)), rep(S(0), 5), one(St(1, 0)), one(S(1)), one(F(0)), one(F(0))),                                                                             // Store key fails, rollback fails: reg only
+			cat(one(St(0, 0)), rep(S(0), 3), one(F(0)), one(St(1, 0))),                                                                                                   // newAccount fails
+			cat(one(St(0, 0)), one(S(0)), one(F(0)), one(St(1, 0))),                                                                                                      // Lock fails
+			cat(one(St(0, 0)), rep(S(0), 2), one(F(0)), one(St(1, 0))),                                                                                                   // reload fails
+			cat(one(St(0, 0)), rep(S(0), 5), one(c20Action{K: "crash", T: 0}), one(St(1, 0))),                                                                            // crash between the two Stores
+			cat(one(St(0, 0)), rep(S(0), 4), one(c20Action{K: "crash", T: 0}), one(St(1, 0))),                                                                            // crash after newAccount
+			cat(one(St(0, 0)), rep(S(0), 5), one(St(1, 0)), one(S(1)), rep(S(0), 1), one(S(1)), one(S(1))),                                                               // reader between reg and key
+			cat(one(St(0, 0)), rep(S(0), 6), one(F(0)), one(S(0)), one(St(1, 0))),                                                                                        // the Unlock fails: the account is stored, the lock stays; the next issuance needs no lock
+			cat(one(St(0, 0)), rep(S(0), 4), one(St(1, 0)), one(S(1)), one(F(0)), one(F(0))),                                                                             // Store reg fails, then the Unlock fails: the waiter never gets the lock and gives up
+			cat(one(St(0, 0)), rep(S(0), 3), one(St(1, 0)), one(S(1)), one(c20Action{K: "step", T: 0, L: true})),                                                         // the response of newAccount is lost, with a waiter
 			cat(one(St(0, 0)), rep(S(0), 3), one(c20Action{K: "step", T: 0, L: true}), one(S(0)), one(St(1, 0)), rep(S(1), 3), one(c20Action{K: "step", T: 1, L: true})), // twice
 		} {
 			if err := addHist("save-faults", email, []int{0, 0}, c20Scripted(sc), map[string]any{"shape": "directed"}); err != nil {
@@ -1612,19 +1929,20 @@ func runC20(tier string, seed int64, outdir string, replay string) error {
 	}
 
 	// the recreate path, systematically: account stored, CA re-installed, then one issuance with a
-	// fault at / a crash before each of its operations (LoadReg LoadKey newOrder DeleteReg DeleteKey
-	// LoadReg Lock LoadReg newAccount StoreReg StoreKey Unlock newOrder), then one more issuance
+	// fault at / a crash before each of its operations (LoadReg LoadKey newOrder Lock LoadReg LoadKey
+	// DeleteReg DeleteKey Unlock LoadReg Lock LoadReg newAccount StoreReg StoreKey Unlock newOrder),
+	// then one more issuance
 	for c := 0; c < 2; c++ {
-		for at := 0; at < 13; at++ {
+		for at := 0; at < 17; at++ {
 			for _, crash := range []bool{false, true} {
-				if tier != "thorough" && (at+c)%2 == 1 && !(at == 3 || at == 4) {
+				if tier != "thorough" && (at+c)%2 == 1 && !(at >= 3 && at <= 8) {
 					continue
 				}
 				sc := cat(one(St(0, c)), rep(S(0), 9), one(Rs(c)), one(St(1, c)), rep(S(1), at))
 				if crash {
 					sc = append(sc, c20Action{K: "crash", T: 1})
 				} else {
-					sc = append(sc, F(1))
+					sc = append(sc, c20Action{K: "step", T: 1, F: true, P: c20OrderProblems[(at+c)%(len(c20OrderProblems)-1)]})
 				}
 				if err := addHist("seq-recreate", "a@example.com", []int{c, c, c}, c20Scripted(sc), map[string]any{"shape": "directed", "at": at, "crash": crash}); err != nil {
 					return err
@@ -1657,7 +1975,7 @@ func runC20(tier string, seed int64, outdir string, replay string) error {
 		case x < 17:
 			sh.class, sh.seq, sh.maxReset, sh.pFault, sh.maxFaults, sh.maxCrash = "seq-recreate", true, 1+rr.Intn(2), 0.08, rr.Intn(2), rr.Intn(2)
 		default:
-			sh.class, sh.maxReset, sh.pFault, sh.maxFaults = "concurrent-recreate", 1+rr.Intn(2), 0.05, rr.Intn(2)
+			sh.class, sh.maxReset, sh.pFault, sh.maxFaults = "concurrent-recreate", 1+rr.Intn(2), 0.1, rr.Intn(3)
 		}
 		sh.cas = make([]int, sh.n)
 		switch rr.Intn(4) {
@@ -1850,6 +2168,7 @@ func runC20(tier string, seed int64, outdir string, replay string) error {
 
 	w.Meta.Oracles = append(w.Meta.Oracles, emit.OracleCheck{Name: "url.Parse yields a lower-case scheme (the rule compares it with \"https\" exactly) on every generated URL", OK: schemeLower, Detail: schemeBad})
 	w.Meta.Oracles = append(w.Meta.Oracles, emit.OracleCheck{Name: fmt.Sprintf("every host that SubjectIsInternal accepts is an internal address by the harness's independent reading (special-use names, loopback / private / link-local / unspecified addresses): %d host judgements", c20RefHosts), OK: c20RefBad == "", Detail: c20RefBad})
+	w.Meta.Oracles = append(w.Meta.Oracles, emit.OracleCheck{Name: "certmagic's names of the account files and of the registration lock are the ones the harness computes by itself (acme/<ca>/users/<email>/<user>.json|.key, register_acme_account[_<email>]); every storage operation on another key is reported as an operation on a foreign account", OK: c20NameBad == "", Detail: c20NameBad})
 	w.Meta.Rule = "histories: distinct wire lines with at least one registration and either two threads reaching the registration lock or a fault / crash / CA reset; URL cases: distinct (CA, TestCA, useTestCA) whose CA is not a plain https URL or whose test CA is in use; contact cases: at least one contact seen; account-key cases: each combination of stored key / stored registration / CA knowledge / e-mail; account-key histories: distinct wire lines with a fault, a crash, two or more calls, or a Store"
 	return nil
 }
